@@ -1,8 +1,137 @@
+/-
+Driver c04 (DESIGN.md section 6, C04): polyline routes are Euclidean shortest paths.
+Per connector the driver builds the spec visibility graph itself (vertices: all shape corners, then
+src, dst; edge iff the proven `segHitsInterior` says the segment enters no shape; weights = certified
+sqrt enclosures), then
+ * penalty 0: verifies the harness's potential and witness path with `Check.Potential.checkCert`
+   (sound by Props/C04.checkCert_sound) ⇒ certified interval [lo, hi] ∋ optimum.  SPECFAIL if the
+   implementation's route length is certainly > hi + 1e-6 (not shortest) or certainly < lo − 1e-6
+   (shorter than any obstacle-avoiding path through the visibility graph).
+ * penalty > 0: certifies the oracle's witness path (every leg an edge of the spec graph) and its cost
+   length + penalty·bends as an upper bound of the optimum: SPECFAIL if the implementation's cost is
+   certainly larger by more than 1e-6.  The lower bound (that the oracle path is optimal) is only
+   compared (DIVERGE), not certified.
+A rejected certificate is a DIVERGE (the harness oracle, not libavoid, is then wrong).
+-/
 import Driver.Proto
+import AdaptaVerif.Check.Potential
 namespace Driver.C04
+open Driver AdaptaVerif.Num
+open AdaptaVerif.Model.Geometry (Pt area2)
+open AdaptaVerif.Check.Route AdaptaVerif.Check.Potential
 
-def run (_args : List String) : IO UInt32 := do
-  IO.eprintln "driver mode c04: not implemented yet"
-  return 2
+def tol : Rat := 1 / 1000000
+def sqrtBits : Nat := 44
+
+def ptsOf (v : Array Rat) : List Pt :=
+  (List.range (v.size / 2)).map fun i => ⟨v[2*i]!, v[2*i+1]!⟩
+
+def parsePolys (c : Case) (kw : String) : Option (List (Nat × List Pt)) :=
+  (c.get kw).toList.mapM fun l => do
+    let v ← nums? (l.extract 2 l.size)
+    if v.size != 2 * nat! l[1]! then none
+    pure (nat! l[0]!, ptsOf v)
+
+def ptStr (p : Pt) : String := s!"({ratToString p.x},{ratToString p.y})"
+
+/-- decimal rendering with 9 digits for messages -/
+def dec (r : Rat) : String :=
+  let neg := r < 0
+  let a := if neg then -r else r
+  let scaled := (a * 1000000000).floor.toNat
+  let ip := scaled / 1000000000
+  let fp := scaled % 1000000000
+  let fs := toString fp
+  let pad := String.ofList (List.replicate (9 - fs.length) '0')
+  s!"{if neg then "-" else ""}{ip}.{pad}{fs}"
+
+def lenLo (rt : List Pt) : Rat := polylineLenLo sqrtBits (rt.map fun p => (p.x, p.y))
+def lenHi (rt : List Pt) : Rat := polylineLenHi sqrtBits (rt.map fun p => (p.x, p.y))
+
+/-- number of bends of a polyline: interior points where the direction changes (not straight-on) -/
+def bends : List Pt → Nat
+  | a :: b :: c :: rest =>
+    let straight := area2 a b c == 0 && (b.x - a.x) * (c.x - b.x) + (b.y - a.y) * (c.y - b.y) > 0
+    (if straight then 0 else 1) + bends (b :: c :: rest)
+  | _ => 0
+
+/-- symmetric closure of the edges leaving vertex i -/
+def bothWays (es : List WEdge) : List WEdge :=
+  es ++ es.map fun e => { e with u := e.v, v := e.u }
+
+def run1 (c : Case) : CaseResult := Id.run do
+  if c.tag == "empty" then return { verdict := .ok, nontrivial := false }
+  let some shapesI := parsePolys c "shape" | return { verdict := .diverge "unparsable shape" }
+  let some displays := parsePolys c "display" | return { verdict := .diverge "unparsable display route" }
+  let shapes : List Poly := shapesI.map (·.2)
+  let corners : List Pt := shapes.foldl (fun acc s => acc ++ s) []
+  let nC := corners.length
+  let penalty : Rat := match c.get1 "cfg" with
+    | some l => (num? (l[3]?.getD "0")).getD 0
+    | none => 0
+  -- corner–corner edges once per case
+  let cornerEdges := specGraph shapes [] sqrtBits corners
+  let mut stats : List (String × Nat) := [("shapes", shapes.length), ("corners", nC), ("cornerEdges", cornerEdges.length)]
+  let mut nontrivial := false
+  let mut fails : List (Nat × Verdict) := []
+  for l in c.get "conn" do
+    let some v := nums? (l.extract 1 5) | return { verdict := .diverge "unparsable conn" }
+    let id := nat! l[0]!
+    let src : Pt := ⟨v[0]!, v[1]!⟩
+    let dst : Pt := ⟨v[2]!, v[3]!⟩
+    let some (_, rt) := displays.find? (·.1 == id) | return { verdict := .specfail s!"conn {id}: no display route" }
+    let pts := corners ++ [src, dst]
+    -- edges of the two endpoints (to every vertex), both directions
+    let eS := edgesFrom shapes [] sqrtBits nC src pts 0
+    let eD := edgesFrom shapes [] sqrtBits (nC + 1) dst pts 0
+    let edges := cornerEdges ++ bothWays eS ++ bothWays (eD.filter fun e => e.v != nC)
+    let some wl := (c.get "wit").find? (fun w => nat! w[0]! == id) | return { verdict := .diverge s!"conn {id}: no witness" }
+    let wit : List Nat := (wl.extract 2 wl.size).toList.map nat!
+    let witPts : List Pt := wit.map fun i => pts.getD i ⟨0, 0⟩
+    let implLo := lenLo rt
+    let implHi := lenHi rt
+    let nb := bends rt
+    if rt.length > 2 then nontrivial := true
+    stats := bumpStats stats s!"bends{min nb 4}" 1
+    if penalty == 0 then
+      let some cl := (c.get "cert").find? (fun w => nat! w[0]! == id) | return { verdict := .diverge s!"conn {id}: no certificate" }
+      let some pot := nums? (cl.extract 2 cl.size) | return { verdict := .diverge s!"conn {id}: unparsable certificate" }
+      match checkCert edges pot.toList nC (nC + 1) wit with
+      | none =>
+        fails := (20, .diverge s!"conn {id}: oracle certificate rejected (potential infeasible on the spec graph, or witness not a path of it)") :: fails
+      | some (lo, hi) =>
+        stats := bumpStats stats "certified" 1
+        if hi - lo > tol / 10 then
+          fails := (21, .diverge s!"conn {id}: certified interval too wide [{dec lo},{dec hi}]") :: fails
+        if implLo > hi + tol then
+          fails := (0, .specfail s!"not-shortest conn {id}: route length ≥ {dec implLo} but a certified obstacle-free path of length ≤ {dec hi} exists (optimum ∈ [{dec lo},{dec hi}]); route has {rt.length} points, witness {wit.length}") :: fails
+        else if implHi < lo - tol then
+          fails := (1, .specfail s!"shorter-than-optimum conn {id}: route length ≤ {dec implHi} but every path in the spec visibility graph has length ≥ {dec lo} (route cuts through an obstacle or leaves the graph)") :: fails
+    else
+      -- certify the witness as an upper bound: all legs are edges of the spec graph
+      if wit.head? != some nC || wit.getLast? != some (nC + 1) then
+        fails := (20, .diverge s!"conn {id}: witness does not join src and dst") :: fails
+      else
+        match pathHi edges wit with
+        | none => fails := (20, .diverge s!"conn {id}: oracle witness is not a path of the spec graph") :: fails
+        | some whi =>
+          stats := bumpStats stats "witnessCertified" 1
+          let witCostHi := whi + penalty * (bends witPts : Nat)
+          let implCostLo := implLo + penalty * (nb : Nat)
+          let implCostHi := implHi + penalty * (nb : Nat)
+          if implCostLo > witCostHi + tol then
+            fails := (0, .specfail s!"not-minimal conn {id} (penalty {dec penalty}): route cost length+penalty·bends ≥ {dec implCostLo} ({nb} bends) but a certified obstacle-free path of cost ≤ {dec witCostHi} ({bends witPts} bends) exists") :: fails
+          else
+            -- lower side: only compared with the oracle's (unverified) optimum
+            let witCostLo := polylineLenLo sqrtBits (witPts.map fun p => (p.x, p.y)) + penalty * (bends witPts : Nat)
+            if implCostHi < witCostLo - tol then
+              fails := (22, .diverge s!"conn {id} (penalty {dec penalty}): route cost ≤ {dec implCostHi} is below the oracle optimum ≥ {dec witCostLo} (oracle not optimal, or route leaves the spec graph)") :: fails
+  match fails.foldl (fun acc f => match acc with
+      | none => some f
+      | some g => if f.1 < g.1 then some f else some g) none with
+  | some f => return { verdict := f.2, nontrivial := nontrivial, stats := stats }
+  | none => return { verdict := .ok, nontrivial := nontrivial, stats := stats }
+
+def run (_args : List String) : IO UInt32 := runCases run1
 
 end Driver.C04
